@@ -408,8 +408,32 @@ impl<'tcx> Cx<'tcx> {
         }
     }
 
+    /// `<P as Trait>::Assoc` normalised for type P (used for clap's TypedValueParser::Value)
+    fn assoc_of(&self, owner: LocalDefId, trait_path_suffix: &str, assoc: &str, p: Ty<'tcx>) -> Option<Ty<'tcx>> {
+        let tcx = self.tcx;
+        let tr = tcx.all_traits_including_private().find(|d| tcx.def_path_str(*d).ends_with(trait_path_suffix))?;
+        let item = tcx
+            .associated_items(tr)
+            .in_definition_order()
+            .find(|i| i.name().as_str() == assoc && i.is_type())?;
+        let proj = Ty::new_projection(tcx, item.def_id, [p]);
+        let env = TypingEnv::post_analysis(tcx, owner);
+        tcx.try_normalize_erasing_regions(env, ty::Unnormalized::new(proj)).ok()
+    }
+
     fn fnref(&self, owner: LocalDefId, def: DefId, args: ty::GenericArgsRef<'tcx>) -> J {
         let mut fields = vec![("path", s(self.path(def))), ("args", self.gargs(args, 1))];
+        let dp = self.tcx.def_path_str(def);
+        if dp.ends_with("Arg::value_parser") {
+            if let Some(p) = args.iter().filter_map(|a| a.as_type()).next() {
+                let p_has_params = p.has_param() || p.has_infer();
+                if !p_has_params {
+                    if let Some(v) = self.assoc_of(owner, "builder::TypedValueParser", "Value", p) {
+                        fields.push(("parser_value", self.ty(v, 1)));
+                    }
+                }
+            }
+        }
         // trait method? try to resolve to the impl
         let is_trait_item = self.tcx.trait_of_assoc(def).is_some();
         if is_trait_item {
